@@ -1965,13 +1965,22 @@ class Explorer(_BaseCtx):
 
         rng = random.Random(self.seed * 7919 + self.stats["paths"] + 104729 * attempt)
         self.solver.push()
+        # Only the differential self-test uses this model (no verdict depends on it): each pinning query gets a short time-out and the
+        # whole search a budget, after which the remaining variables keep the values the solver chooses (on a loaded machine the
+        # pinning queries of one path were seen to add up to minutes).
+        t_begin = time.perf_counter()
+        budget_s = max(6.0, self.query_timeout_ms / 1000.0 / 2)
+        self.solver.set("timeout", max(1500, self.query_timeout_ms // 10))
         try:
             names = list(self.vars.items())
             if attempt:
                 rng.shuffle(names)
+            free = []
             for name, v in names:
                 if not z3.is_real(v) or name.startswith("_"):
                     continue
+                if time.perf_counter() - t_begin > budget_s:
+                    break
                 val = z3.RealVal(f"{rng.randint(-40, 40)}/8")
                 self.solver.push()
                 self.solver.add(v == val)
@@ -1980,9 +1989,37 @@ class Explorer(_BaseCtx):
                 self.stats["solver_s"] += time.perf_counter() - t0
                 if r != z3.sat:
                     self.solver.pop()
+                    free.append(v)
+            # second pass over the variables that could not take their random value (typically a tolerance squeezed between two
+            # residuals): left to the solver they sit ON a boundary of the path condition (tol == residual), where the float64
+            # replay falls on either side by rounding; move each of them off the solver's value by a dyadic step if the path allows
+            for v in free:
+                if time.perf_counter() - t_begin > budget_s:
+                    break
+                t0 = time.perf_counter()
+                r = self.solver.check()
+                self.stats["solver_s"] += time.perf_counter() - t0
+                if r != z3.sat:
+                    break
+                v0 = self.solver.model().eval(v, model_completion=True)
+                if not z3.is_rational_value(v0):
+                    continue
+                for step in ("1/8", "-1/8", "1/64", "-1/64", "1/1024", "-1/1024"):
+                    self.solver.push()
+                    self.solver.add(v == v0 + z3.RealVal(step))
+                    t0 = time.perf_counter()
+                    r = self.solver.check()
+                    self.stats["solver_s"] += time.perf_counter() - t0
+                    if r == z3.sat:
+                        break
+                    self.solver.pop()
+            self.solver.set("timeout", self.query_timeout_ms)
             r = self.solver.check()
             return self.solver.model() if r == z3.sat else None
+        except z3.Z3Exception:
+            return None
         finally:
+            self.solver.set("timeout", self.query_timeout_ms)
             # unwind every push made above
             while self.solver.num_scopes() > 0:
                 self.solver.pop()
